@@ -148,6 +148,13 @@ def method_src(mid, m, self_flag=False):
         lines.append(
             f"    return ({mid!r}, [recurse(k{more}) for k in {first}.kids])"
         )
+    elif k == "fcall":
+        # recursion *by name*: FN is a module global bound to one particular function; the library
+        # treats it as "this function" only in that function's own copy of the method
+        more = "".join(", " + r for r in rest)
+        lines.append(
+            f"    return ({mid!r}, [FN(k{more}) for k in {first}.kids])"
+        )
     elif k == "rec_next":
         more = "".join(", " + r for r in rest)
         lines.append(
